@@ -250,7 +250,7 @@ func ruletextGen(r ruletextRule) string {
 	}
 }
 
-var ruletextModes = []string{"once", "incr", "multi"}
+var ruletextModes = []string{"once", "incr", "multi", "premulti"}
 
 func ruletextRtOne(rules []ruletextRule, mode string) (rec ruletextRtRec) {
 	rec.Rules = rules
@@ -277,6 +277,10 @@ func ruletextRtOne(rules []ruletextRule, mode string) (rec ruletextRtRec) {
 			rm.Set("F", g)
 		}
 	case "multi": // several field names in one call
+		rm.Set("G,F,H", gens...)
+		field = "F"
+	case "premulti": // several field names in one call, the first of which already holds rules: F gets the list exactly once
+		rm.Set("G", gens...)
 		rm.Set("G,F,H", gens...)
 		field = "F"
 	default:
